@@ -39,7 +39,7 @@ use sha2::{Digest, Sha256};
 /// a read whose preview is empty (preview limit 0, or a read longer than the limit that starts
 /// with bytes that are not valid UTF-8 within the limit). The bytes are stored, but no frame
 /// references them: the ranges of the remaining frames have a hole / stop short of the end.
-const EXCLUDE_KNOWN_EMPTY_PREVIEW_GAP: bool = true;
+const EXCLUDE_KNOWN_EMPTY_PREVIEW_GAP: bool = false;
 const SIG_GAP: &str = "range_gap|task_output_delta|frame_skipped_when_preview_empty";
 
 /// K2: both range readers (`read_artifact_range`, `artifact_fetch`) decode the page lossily and
@@ -47,7 +47,7 @@ const SIG_GAP: &str = "range_gap|task_output_delta|frame_skipped_when_preview_em
 /// U+FFFD on both pages (the intended back-off to a character boundary in `truncate_utf8` can
 /// never trigger because the buffer is never longer than `max_bytes`), so paging valid UTF-8 text
 /// does not reproduce it.
-const EXCLUDE_KNOWN_SPLIT_CHAR_PAGE: bool = true;
+const EXCLUDE_KNOWN_SPLIT_CHAR_PAGE: bool = false;
 const SIG_SPLIT_TASK: &str = "page_text_lossy|task_output|multibyte_char_split_at_page_boundary";
 const SIG_SPLIT_FETCH: &str = "page_text_lossy|artifact_fetch|multibyte_char_split_at_page_boundary";
 
